@@ -92,7 +92,7 @@ func call(f func()) string {
 }
 
 // matchSeq: got must be want in order, where entries marked Open may be absent.
-// Artifacts are unique per case, so the greedy walk is exact.
+// The coordinates of an Open entry are unique per case (only firm entries are ever declared twice), so the greedy walk is exact.
 func matchSeq(got, want []Dep) string {
 	i := 0
 	for gi, g := range got {
@@ -153,6 +153,8 @@ func init() {
 	// self-test of the name tables: a stem inside another word would make "occurs in" ambiguous
 	words := append(append([]string{}, unrelatedImports...), decoys...)
 	words = append(words, "org.", "com.", "io.", "net.", "javax.", "jakarta.", ".core", ".boot", ".ext", "-kit", ".x2", "second", "Client", "core.Engine", "api.v1.Service", "util.Helper.run", "com.example.app", "shaded.")
+	// words of the audit round: further affixes, the near-miss imports and the texts written into Java files
+	words = append(words, "org.apache.", "com.github.", "io.github.", "4j", "_2", "zz.", ".unrelated.Thing", ".kit.", "Other", "TestDataFactory", "testdata", "import", "String", "hint", "legacy", "Mode", "Marker", "Nested", "Inner", "Local", "Base", "Comparable", "Serializable", "Runnable", "Deprecated", "SuppressWarnings", "unchecked", "lorem ipsum dolor sit amet")
 	for i, s := range stems {
 		for j, o := range stems {
 			if i != j && strings.Contains(o, s) {
@@ -176,8 +178,8 @@ type namer struct {
 }
 
 var (
-	groupPrefixes = []string{"org.", "com.", "io.", "net.", "", "javax.", "jakarta."}
-	groupSuffixes = []string{"", ".core", ".boot", ".ext", "-kit", ".x2"}
+	groupPrefixes = []string{"org.", "com.", "io.", "net.", "", "javax.", "jakarta.", "org.apache.", "com.github.", "io.github."}
+	groupSuffixes = []string{"", ".core", ".boot", ".ext", "-kit", ".x2", "4j", "_2"}
 	artifactKinds = []string{"core", "api", "starter-web", "test", "bom", "client", "core.api", "lib_2.12"}
 	pomVersions   = []string{"1.2.3", "4.12", "2.0.0.RELEASE", "0.9-SNAPSHOT", "[1.0,2.0)", "${lib.version}", "${project.version}"}
 	pomScopes     = []string{"test", "compile", "provided", "runtime", "system", "import"}
@@ -228,6 +230,9 @@ type depSpec struct {
 	EmptyExcl      bool // <exclusions/> (only when Exclusions == 0)
 	// added by the second widening round
 	PIBefore bool // a processing instruction (<?SORTPOM IGNORE?>) in front of the <dependency>
+	// added by the audit round
+	DupOf      int  // k > 0: declares the coordinates (group id and artifact id) of the (k-1)th earlier dependency once more, with children of its own
+	SystemPath bool // a <systemPath> child (only next to <scope>system</scope>)
 }
 
 var depSpecGen = rapid.Custom(func(t *rapid.T) depSpec {
@@ -275,6 +280,10 @@ var depSpecGen = rapid.Custom(func(t *rapid.T) depSpec {
 		d.EmptyExcl = rapid.IntRange(0, 9).Draw(t, "emptyExclusions") == 9
 	}
 	d.PIBefore = rapid.IntRange(0, 11).Draw(t, "processingInstructionBefore") == 11
+	if rapid.IntRange(0, 7).Draw(t, "sameCoordinates") == 7 {
+		d.DupOf = rapid.IntRange(1, 4).Draw(t, "sameCoordinatesAs")
+	}
+	d.SystemPath = rapid.Bool().Draw(t, "systemPath")
 	return d
 })
 
@@ -445,6 +454,13 @@ type pomSpec struct {
 	Props    []xnode      // additional properties with free names
 	Plugins  []pluginSpec // additional plug-ins with free configuration
 	Fallback []int        // per host section: 1 before / 2 after the dependencies block, used when Place leaves the host out
+	// added by the audit round (zero value = the plain variant)
+	PrologQuote bool // the pseudo-attributes of the XML declaration are written in single quotes
+	Tail        int  // what follows </project>: 0 a line end, 1 nothing, 2 blank lines, a comment and a processing instruction
+	EmptyForm   bool // a dependencies block without dependency is written <dependencies/>
+	Bulk        int  // further plain dependencies after the drawn ones (they re-use the group ids declared so far)
+	Filler      int  // a comment of 1: 5 000, 2: 70 000 characters on one line ...
+	FillerAt    int  // ... 0 in front of the dependencies block, 1 inside it
 }
 
 func drawPomSpec(t *rapid.T, maxDeps int) pomSpec {
@@ -471,6 +487,18 @@ func drawPomSpec(t *rapid.T, maxDeps int) pomSpec {
 		p.Plugins = rapid.SliceOfN(pluginSpecGen, 1, 3).Draw(t, "plugins")
 	}
 	p.Fallback = rapid.SliceOfN(rapid.IntRange(1, 2), hostCount, hostCount).Draw(t, "hostPlacement")
+	p.PrologQuote = rapid.IntRange(0, 3).Draw(t, "declarationInSingleQuotes") == 3
+	if rapid.IntRange(0, 3).Draw(t, "afterRootElement") == 3 {
+		p.Tail = rapid.IntRange(1, 2).Draw(t, "afterRootElementForm")
+	}
+	p.EmptyForm = rapid.Bool().Draw(t, "emptyBlockSelfClosing")
+	if rapid.IntRange(0, 9).Draw(t, "manyDependencies") == 9 {
+		p.Bulk = rapid.SampledFrom([]int{3, 7, 12, 23, 30, 40, 57, 63, 66, 90}).Draw(t, "furtherDependencies")
+	}
+	if rapid.IntRange(0, 9).Draw(t, "longLine") == 9 {
+		p.Filler = rapid.SampledFrom([]int{1, 2, 2}).Draw(t, "longLineSize")
+		p.FillerAt = rapid.IntRange(0, 1).Draw(t, "longLineAt")
+	}
 	return p
 }
 
@@ -686,13 +714,20 @@ func renderPom(p pomSpec, n *namer) pomOut {
 		return false
 	}
 
+	decl := func(text string) string {
+		if p.PrologQuote {
+			feats["xml_declaration_in_single_quotes"] = true
+			return strings.ReplaceAll(text, `"`, `'`)
+		}
+		return text
+	}
 	switch p.Prolog {
 	case 1:
-		w.line(0, `<?xml version="1.0" encoding="UTF-8"?>`)
+		w.line(0, decl(`<?xml version="1.0" encoding="UTF-8"?>`))
 	case 2:
-		w.line(0, `<?xml version="1.0" encoding="utf-8" standalone="no"?>`)
+		w.line(0, decl(`<?xml version="1.0" encoding="utf-8" standalone="no"?>`))
 	case 3:
-		w.line(0, `<?xml version="1.0"?>`)
+		w.line(0, decl(`<?xml version="1.0"?>`))
 		w.comment(0, "generated pom")
 	}
 	if p.Namespaces {
@@ -938,23 +973,45 @@ func renderPom(p pomSpec, n *namer) pomOut {
 	}
 
 	phase = "inside"
-	if len(p.Deps) == 0 && p.OmitBlock {
+	filler := func(depth int) {
+		size := []int{5000, 70000}[(p.Filler-1)%2]
+		w.comment(depth, strings.Repeat("lorem ipsum dolor sit amet ", size/27+1))
+		feats[fmt.Sprintf("comment_line_longer_than_%d_bytes", size)] = true
+	}
+	if p.Filler > 0 && (p.FillerAt == 0 || (len(p.Deps) == 0 && p.Bulk == 0)) {
+		filler(1)
+	}
+	if len(p.Deps) == 0 && p.Bulk == 0 && p.OmitBlock {
 		feats["no_dependencies_element"] = true
+	} else if len(p.Deps) == 0 && p.Bulk == 0 && p.EmptyForm {
+		w.line(1, "<dependencies/>")
+		feats["self_closing_dependencies_element"] = true
 	} else {
 		w.open(1, "dependencies")
 		for d, ds := range p.Deps {
-			var group string
-			if ds.SameGroupAs > 0 && d > 0 {
-				group = out.Deps[(ds.SameGroupAs-1)%d].Group
-				feats["group_declared_twice"] = true
-			} else {
-				group = n.group(ds.Prefix, ds.Suffix)
+			if p.Filler > 0 && p.FillerAt == 1 && d == len(p.Deps)-1 {
+				filler(2)
 			}
-			dep := Dep{Group: group, Artifact: n.artifact(group, ds.ArtKind)}
-			if ds.SameArtifactAs > 0 && d > 0 {
-				if o := out.Deps[(ds.SameArtifactAs-1)%d]; !declared(out.Deps, group, o.Artifact) {
-					dep.Artifact = o.Artifact
-					feats["artifact_id_shared_by_two_groups"] = true
+			var group string
+			var dep Dep
+			if ds.DupOf > 0 && d > 0 {
+				o := out.Deps[(ds.DupOf-1)%d]
+				group = o.Group
+				dep = Dep{Group: o.Group, Artifact: o.Artifact}
+				feats["coordinates_declared_twice"] = true
+			} else {
+				if ds.SameGroupAs > 0 && d > 0 {
+					group = out.Deps[(ds.SameGroupAs-1)%d].Group
+					feats["group_declared_twice"] = true
+				} else {
+					group = n.group(ds.Prefix, ds.Suffix)
+				}
+				dep = Dep{Group: group, Artifact: n.artifact(group, ds.ArtKind)}
+				if ds.SameArtifactAs > 0 && d > 0 {
+					if o := out.Deps[(ds.SameArtifactAs-1)%d]; !declared(out.Deps, group, o.Artifact) {
+						dep.Artifact = o.Artifact
+						feats["artifact_id_shared_by_two_groups"] = true
+					}
 				}
 			}
 			if d == 0 && n.reuse != nil {
@@ -987,6 +1044,10 @@ func renderPom(p pomSpec, n *namer) pomOut {
 				dep.Scope = pomScopes[(ds.Scope-1)%len(pomScopes)]
 				children = append(children, child{name: "scope", text: dep.Scope})
 				feats["scope"] = true
+				if dep.Scope == "system" && ds.SystemPath {
+					children = append(children, child{name: "systemPath", text: "${basedir}/lib/" + dep.Artifact + ".jar"})
+					feats["system_path"] = true
+				}
 			}
 			if ds.Type > 0 {
 				children = append(children, child{name: "type", text: []string{"pom", "jar", "test-jar"}[(ds.Type-1)%3]})
@@ -1055,6 +1116,33 @@ func renderPom(p pomSpec, n *namer) pomOut {
 			w.close(2, "dependency")
 			out.Deps = append(out.Deps, dep)
 		}
+		if p.Bulk > 0 {
+			// many further dependencies, written plainly; they share the group ids declared so far
+			var pool []string
+			for _, d := range out.Deps {
+				pool = append(pool, d.Group)
+			}
+			if len(pool) == 0 {
+				pool = append(pool, n.group(0, 0))
+			}
+			for b := 0; b < p.Bulk; b++ {
+				if p.Filler > 0 && p.FillerAt == 1 && len(p.Deps) == 0 && b == p.Bulk-1 {
+					filler(2)
+				}
+				group := pool[b%len(pool)]
+				dep := Dep{Group: group, Artifact: n.artifact(group, b)}
+				w.open(2, "dependency")
+				w.leaf(3, "groupId", dep.Group)
+				w.leaf(3, "artifactId", dep.Artifact)
+				if b%3 == 0 {
+					dep.Scope = "test"
+					w.leaf(3, "scope", dep.Scope)
+				}
+				w.close(2, "dependency")
+				out.Deps = append(out.Deps, dep)
+			}
+			feats["dependencies_total="+bucketMany(len(out.Deps))] = true
+		}
 		if len(p.Deps) > 0 && p.EndComment {
 			w.comment(2, "end of dependencies")
 		}
@@ -1069,6 +1157,16 @@ func renderPom(p pomSpec, n *namer) pomOut {
 	}
 	w.line(0, "</project>")
 	out.Text = w.b.String()
+	switch p.Tail {
+	case 1:
+		if strings.HasSuffix(out.Text, w.nl) {
+			out.Text = strings.TrimSuffix(out.Text, w.nl)
+			feats["no_line_end_after_root_element"] = true
+		}
+	case 2:
+		out.Text += w.nl + w.nl + "<!-- end of file -->" + w.nl + "<?SORTPOM RESUME?>" + w.nl + " " + w.nl
+		feats["comment_and_instruction_after_root_element"] = true
+	}
 	if p.OneLine {
 		feats["single_line_xml"] = true
 	}
@@ -1136,6 +1234,21 @@ func checkPom(c PomCase) pbt.Verdict {
 	return v
 }
 
+// bucketMany labels a size by the slice-growth thresholds it lies beyond
+func bucketMany(n int) string {
+	switch {
+	case n <= 8:
+		return "up_to_8"
+	case n <= 16:
+		return "9-16"
+	case n <= 32:
+		return "17-32"
+	case n <= 64:
+		return "33-64"
+	}
+	return "65+"
+}
+
 func bucket(n int) string {
 	switch {
 	case n == 0:
@@ -1161,7 +1274,9 @@ type gradleOut struct {
 var gradleConfs = []string{"implementation", "api", "compileOnly", "runtimeOnly", "testImplementation", "testRuntimeOnly",
 	"annotationProcessor", "developmentOnly", "compile", "testCompile",
 	// any identifier may name a configuration (plugin-defined and user-defined ones)
-	"kapt", "integrationTestImplementation", "testFixturesApi", "provided", "compileClasspath", "checkstyle"}
+	"kapt", "integrationTestImplementation", "testFixturesApi", "provided", "compileClasspath", "checkstyle",
+	// audit round: digits, an underscore, a one-letter and a very long name
+	"java11Implementation", "jmh", "integTest_runtimeOnly", "i", "functionalTestFixturesRuntimeOnlyDependenciesMetadataForTheLegacyBuildVariant"}
 
 // blocks that surround the dependencies block; every one of them was seen to be accepted by the shipped parser
 var gradleBlocks = []string{
@@ -1186,7 +1301,27 @@ var gradleBlocks = []string{
 	"dependencyLocking {\n    lockAllConfigurations()\n}\n",
 	"subprojects {\n    apply plugin: 'java'\n    repositories {\n        mavenCentral()\n    }\n}\n",
 	"configurations.all {\n    exclude group: 'org.decoy.excl', module: 'excluded-2'\n}\n",
+	// audit round: further statements of real build scripts; texts that look like the syntax the extraction is after
+	"import org.gradle.api.tasks.testing.logging.TestLogEvent\n",
+	"apply from: 'gradle/extra.gradle'\n",
+	"ext.libVersion = '5.0'\n",
+	"description = \"sample with dependencies { compile 'org.decoy.script:in-string:1.0' }\"\n",
+	"// dependencies { compile 'org.decoy.script:in-comment:1.0' }\n",
+	"repositories {\n    maven {\n        url 'https://repo.example.org/maven2' // mirror\n    }\n}\n",
+	"sourceSets {\n    main {\n        java {\n            srcDirs = ['src/main/java', 'src/generated/java']\n        }\n    }\n}\n",
+	"def coordinate(String name) {\n    return \"org.decoy.script:${name}:1.0\"\n}\n",
+	"if (project.hasProperty('ci')) {\n    version = '1.0-ci'\n}\n",
+	"tasks.register('hello') {\n    doLast {\n        println 'dependencies { }'\n    }\n}\n",
+	"tasks.named('test') {\n    useJUnitPlatform()\n}\n",
+	"dependenciesInfo {\n    includeInApk = false\n}\n",
+	"dependencyCheck {\n    failBuildOnCVSS = 7\n}\n",
+	"java {\n    toolchain {\n        languageVersion = JavaLanguageVersion.of(17)\n    }\n}\n",
+	"version '1.0'\n",
+	"println \"configuring ${project.name}\"\n",
+	"publishing {\n    publications {\n        maven(MavenPublication) {\n            from components.java\n        }\n    }\n}\n",
 }
+
+const gradleOldBlocks = 20 // the blocks of the earlier rounds; the later ones are labelled one by one
 
 const blockCommentIndex = 14 // index of the block comment in gradleBlocks
 
@@ -1240,6 +1375,11 @@ type entrySpec struct {
 	// added by the widening round (zero value = the plain variant)
 	SameArtifactAs int // k > 0: the artifact id of the (k-1)th earlier entry when that one has another group id
 	Semi           int // 1 = the entry ends in ';', 2 = '; ' and the next entry follows on the same line
+	// added by the audit round
+	DupOf         int  // k > 0: the coordinates of the (k-1)th earlier string-notation entry once more (own configuration and notation)
+	Layout        int  // 1 run of blanks, 2 tab, 4 line continuation between configuration and string; 3 blanks inside the parentheses
+	OffBefore     int  // a switched-off entry in a comment on the line(s) before: 1,5 line comment, 2 block comment, 3 block comment over several lines, 4 doc comment
+	TrailingBlock bool // a block comment behind the entry on its line
 }
 
 var entrySpecGen = rapid.Custom(func(t *rapid.T) entrySpec {
@@ -1267,6 +1407,16 @@ var entrySpecGen = rapid.Custom(func(t *rapid.T) entrySpec {
 	if rapid.IntRange(0, 7).Draw(t, "semicolon") == 7 {
 		e.Semi = rapid.IntRange(1, 2).Draw(t, "semicolonForm")
 	}
+	if rapid.IntRange(0, 7).Draw(t, "sameCoordinates") == 7 {
+		e.DupOf = rapid.IntRange(1, 4).Draw(t, "sameCoordinatesAs")
+	}
+	if rapid.IntRange(0, 4).Draw(t, "layout") == 4 {
+		e.Layout = rapid.IntRange(1, 4).Draw(t, "layoutForm")
+	}
+	if rapid.IntRange(0, 5).Draw(t, "switchedOffEntryBefore") == 5 {
+		e.OffBefore = rapid.IntRange(1, 5).Draw(t, "switchedOffForm")
+	}
+	e.TrailingBlock = rapid.IntRange(0, 9).Draw(t, "trailingBlockComment") == 9
 	return e
 })
 
@@ -1279,12 +1429,16 @@ type gradleSpec struct {
 	// added by the widening round (zero value = the plain variant)
 	Header  int  // 1 "dependencies{", 2 the whole block on one line (only with at most one plain entry)
 	NoBlock bool // the script has no dependencies block at all (the entries are not written)
+	// added by the audit round
+	Edge   int // 1 no line end after the last line, 2 blank lines before the first and blanks and blank lines after the last line
+	Bulk   int // further plain entries after the drawn ones (they re-use the group ids declared so far)
+	Filler int // a line comment of 1: 5 000, 2: 70 000 characters in front of the dependencies block
 }
 
 func drawGradleSpec(t *rapid.T, maxEntries int) gradleSpec {
 	g := gradleSpec{}
 	g.Indent = rapid.IntRange(0, 2).Draw(t, "indent")
-	g.Place = rapid.SliceOfN(rapid.IntRange(0, 5), len(gradleBlocks), len(gradleBlocks)).Draw(t, "blocks")
+	g.Place = rapid.SliceOfN(rapid.IntRange(0, 5), gradleOldBlocks, gradleOldBlocks).Draw(t, "blocks")
 	g.Blank = rapid.SliceOfN(rapid.Bool(), len(gradleBlocks), len(gradleBlocks)).Draw(t, "blankLines")
 	g.CRLF = rapid.IntRange(0, 9).Draw(t, "crlf") == 9
 	g.Entries = rapid.SliceOfN(entrySpecGen, 0, maxEntries).Draw(t, "entries")
@@ -1292,6 +1446,17 @@ func drawGradleSpec(t *rapid.T, maxEntries int) gradleSpec {
 		g.Header = rapid.IntRange(1, 2).Draw(t, "headerForm")
 	}
 	g.NoBlock = rapid.IntRange(0, 11).Draw(t, "noDependenciesBlock") == 11
+	// the blocks of the audit round: each one present in one script of five
+	g.Place = append(g.Place, rapid.SliceOfN(rapid.SampledFrom([]int{0, 0, 0, 0, 0, 0, 0, 0, 1, 2}), len(gradleBlocks)-gradleOldBlocks, len(gradleBlocks)-gradleOldBlocks).Draw(t, "moreBlocks")...)
+	if rapid.IntRange(0, 4).Draw(t, "fileEdge") == 4 {
+		g.Edge = rapid.IntRange(1, 2).Draw(t, "fileEdgeForm")
+	}
+	if rapid.IntRange(0, 11).Draw(t, "manyEntries") == 11 {
+		g.Bulk = rapid.SampledFrom([]int{3, 7, 12, 23, 30, 40, 57, 66}).Draw(t, "furtherEntries")
+	}
+	if rapid.IntRange(0, 7).Draw(t, "longLine") == 7 {
+		g.Filler = rapid.SampledFrom([]int{1, 2, 2}).Draw(t, "longLineSize")
+	}
 	// generator features tied to recorded (unrepaired) findings are left out
 	if pbt.Excluded("gradle_block_comment_top_level") {
 		g.Place[blockCommentIndex] = 0
@@ -1333,7 +1498,15 @@ func renderGradle(g gradleSpec, n *namer) gradleOut {
 			if i == blockCommentIndex {
 				feats["block_comment_at_top_level"] = true
 			}
+			if i >= gradleOldBlocks {
+				feats["block_before:"+blockLabel(blk)] = true
+			}
 		}
+	}
+	if g.Filler > 0 {
+		size := []int{5000, 70000}[(g.Filler-1)%2]
+		b.WriteString("// " + strings.Repeat("lorem ipsum dolor sit amet ", size/27+1) + "\n")
+		feats[fmt.Sprintf("comment_line_longer_than_%d_bytes", size)] = true
 	}
 
 	entries := g.Entries
@@ -1371,6 +1544,21 @@ func renderGradle(g gradleSpec, n *namer) gradleOut {
 				feats["artifact_id_shared_by_two_groups"] = true
 			}
 		}
+		firmNotation := e.Notation <= nPropertyClosure || e.Notation == nTrailingClosure
+		if e.DupOf > 0 && firmNotation {
+			// the same coordinates in a second configuration (compileOnly + annotationProcessor ...)
+			var firm []Dep
+			for _, o := range out.Entries {
+				if !o.Open {
+					firm = append(firm, o)
+				}
+			}
+			if len(firm) > 0 {
+				o := firm[(e.DupOf-1)%len(firm)]
+				group, art = o.Group, o.Artifact
+				feats["coordinates_declared_twice"] = true
+			}
+		}
 		if n.reuse != nil && (e.Notation <= nPropertyClosure || e.Notation == nTrailingClosure) {
 			group, art = n.reuse.Group, n.reuse.Artifact
 			n.reuse = nil
@@ -1392,37 +1580,77 @@ func renderGradle(g gradleSpec, n *namer) gradleOut {
 			b.WriteString(ind + "// " + art + "\n")
 			feats["comment_in_block"] = true
 		}
+		if e.OffBefore > 0 && !joined && !oneLine {
+			off := fmt.Sprintf("%s:off-%d:1.0", decoyScript, ei)
+			form := e.OffBefore
+			if form >= 2 && form <= 4 && pbt.Excluded("gradle_block_comment_top_level") {
+				form = 1
+			}
+			switch form {
+			case 2:
+				b.WriteString(ind + "/* " + conf + " '" + off + "' */\n")
+				feats["switched_off_entry_in_block_comment"] = true
+			case 3:
+				b.WriteString(ind + "/*\n" + ind + " * " + conf + " '" + off + "'\n" + ind + " */\n")
+				feats["switched_off_entry_in_block_comment"] = true
+			case 4:
+				b.WriteString(ind + "/** kept for reference: " + conf + "('" + off + "') */\n")
+				feats["switched_off_entry_in_block_comment"] = true
+			case 5:
+				b.WriteString(ind + "//" + conf + "(\"" + off + "\")\n")
+				feats["switched_off_entry_in_line_comment"] = true
+			default:
+				b.WriteString(ind + "// " + conf + " '" + off + "'\n")
+				feats["switched_off_entry_in_line_comment"] = true
+			}
+		}
+		// layout of the entry: what stands between configuration name and string, inside the parentheses, around the string
+		sep, lp, rp := " ", "(", ")"
+		switch {
+		case e.Layout == 1 && (e.Notation == nSingle || e.Notation == nDouble || e.Notation == nTrailingClosure):
+			sep = "     "
+			feats["run_of_blanks_before_string"] = true
+		case e.Layout == 2 && (e.Notation == nSingle || e.Notation == nDouble || e.Notation == nTrailingClosure):
+			sep = "\t"
+			feats["tab_before_string"] = true
+		case e.Layout == 4 && !oneLine && (e.Notation == nSingle || e.Notation == nDouble):
+			sep = " \\\n" + ind + ind + ind
+			feats["line_continuation_before_string"] = true
+		case e.Layout == 3 && e.Notation >= nParenSingle && e.Notation <= nPropertyClosure:
+			lp, rp = "( ", " )"
+			feats["blanks_inside_parentheses"] = true
+		}
 		line := ""
 		must, open := true, false
 		v := e.Variant
 		switch e.Notation {
 		case nSingle:
-			line = conf + " '" + coord + "'"
+			line = conf + sep + "'" + coord + "'"
 		case nDouble:
-			line = conf + " \"" + coord + "\""
+			line = conf + sep + "\"" + coord + "\""
 		case nParenSingle:
-			line = conf + "('" + coord + "')"
+			line = conf + lp + "'" + coord + "'" + rp
 		case nParenDouble:
-			line = conf + "(\"" + coord + "\")"
+			line = conf + lp + "\"" + coord + "\"" + rp
 		case nSpaceParen:
-			line = conf + " ('" + coord + "')"
+			line = conf + " " + lp + "'" + coord + "'" + rp
 		case nExcludeClosure:
 			q := []string{"'", "'", "\""}[v%3]
 			if q == "\"" && pbt.Excluded("gradle_double_quoted") {
 				q = "'"
 			}
-			line = conf + "(" + q + coord + q + ") {\n" + ind + ind + "exclude group: '" + decoyExcl + "', module: 'excluded-0'\n" + ind + ind + "exclude module: 'excluded-1'\n" + ind + "}"
+			line = conf + lp + q + coord + q + rp + " {\n" + ind + ind + "exclude group: '" + decoyExcl + "', module: 'excluded-0'\n" + ind + ind + "exclude module: 'excluded-1'\n" + ind + "}"
 		case nPropertyClosure:
 			if v%3 == 2 {
-				line = conf + "('" + coord + "') {\n" + ind + ind + "because 'see " + decoyExcl + ":excluded-0:1.0'\n" + ind + ind + "version {\n" + ind + ind + ind + "strictly '1.0'\n" + ind + ind + "}\n" + ind + "}"
+				line = conf + lp + "'" + coord + "'" + rp + " {\n" + ind + ind + "because 'see " + decoyExcl + ":excluded-0:1.0'\n" + ind + ind + "version {\n" + ind + ind + ind + "strictly '1.0'\n" + ind + ind + "}\n" + ind + "}"
 			} else {
-				line = conf + "('" + coord + "') { transitive = false }"
+				line = conf + lp + "'" + coord + "'" + rp + " { transitive = false }"
 			}
 		case nTrailingClosure:
 			if v%2 == 1 {
-				line = conf + " '" + coord + "', {\n" + ind + ind + "exclude group: '" + decoyExcl + "'\n" + ind + "}"
+				line = conf + sep + "'" + coord + "', {\n" + ind + ind + "exclude group: '" + decoyExcl + "'\n" + ind + "}"
 			} else {
-				line = conf + " '" + coord + "', { transitive = false }"
+				line = conf + sep + "'" + coord + "', { transitive = false }"
 			}
 		case nNonEntry:
 			// statements of the dependencies block that are no entries: they must not disturb the entries around them;
@@ -1482,8 +1710,17 @@ func renderGradle(g gradleSpec, n *namer) gradleOut {
 				line += ";"
 				feats["entry_ends_in_semicolon"] = true
 			}
+			if e.TrailingBlock && e.Semi == 0 && e.Notation <= nSpaceParen && !strings.Contains(line, "\n") && !pbt.Excluded("gradle_block_comment_top_level") {
+				if e.Notation <= nDouble {
+					line += " /* keep */"
+					feats["block_comment_behind_entry"] = true
+				} else if !pbt.Excluded("gradle_block_comment_behind_parenthesised_entry") {
+					line += " /* keep */"
+					feats["block_comment_behind_parenthesised_entry"] = true
+				}
+			}
 			if e.TrailingComment {
-				line += " // keep"
+				line += " // keep, see https://example.org/why"
 				feats["comment_in_block"] = true
 			}
 			if !joined {
@@ -1499,6 +1736,29 @@ func renderGradle(g gradleSpec, n *namer) gradleOut {
 			out.Entries = append(out.Entries, Dep{Group: group, Artifact: art, Scope: conf, Open: open})
 		}
 	}
+	bulkWritten := false
+	if g.Bulk > 0 && !g.NoBlock && !oneLine {
+		bulkWritten = true
+		// many further entries, written plainly; they share the group ids declared so far
+		var pool []string
+		for _, d := range out.Entries {
+			pool = append(pool, d.Group)
+		}
+		if len(pool) == 0 {
+			pool = append(pool, n.group(0, 0))
+		}
+		if joined {
+			b.WriteString("\n")
+		}
+		for k := 0; k < g.Bulk; k++ {
+			group := pool[k%len(pool)]
+			art := n.artifact(group, k)
+			conf := []string{"implementation", "testImplementation", "runtimeOnly"}[k%3]
+			b.WriteString(ind + conf + " '" + group + ":" + art + ":1.0'\n")
+			out.Entries = append(out.Entries, Dep{Group: group, Artifact: art, Scope: conf})
+		}
+		feats["entries_total="+bucketMany(len(out.Entries))] = true
+	}
 	if !g.NoBlock {
 		b.WriteString("}\n")
 	}
@@ -1512,12 +1772,25 @@ func renderGradle(g gradleSpec, n *namer) gradleOut {
 			if i == blockCommentIndex {
 				feats["block_comment_at_top_level"] = true
 			}
+			if i >= gradleOldBlocks {
+				feats["block_after:"+blockLabel(blk)] = true
+			}
 		}
 	}
-	if len(g.Entries) == 0 && !g.NoBlock {
+	if len(g.Entries) == 0 && !g.NoBlock && !bulkWritten {
 		feats["empty_dependencies_block"] = true
 	}
 	out.Text = b.String()
+	switch g.Edge {
+	case 1:
+		if strings.HasSuffix(out.Text, "\n") {
+			out.Text = strings.TrimSuffix(out.Text, "\n")
+			feats["no_line_end_after_last_line"] = true
+		}
+	case 2:
+		out.Text = "\n\n" + out.Text + "  \n\n\t\n"
+		feats["blank_lines_at_both_ends"] = true
+	}
 	if g.CRLF {
 		out.Text = strings.ReplaceAll(out.Text, "\n", "\r\n")
 		feats["crlf"] = true
@@ -1531,6 +1804,16 @@ func renderGradle(g gradleSpec, n *namer) gradleOut {
 	sort.Strings(out.Features)
 	sort.Strings(out.Notations)
 	return out
+}
+
+// blockLabel names a surrounding block by its first word(s)
+func blockLabel(blk string) string {
+	l := strings.SplitN(blk, "\n", 2)[0]
+	l = strings.TrimSuffix(strings.TrimSpace(l), "{")
+	if len(l) > 34 {
+		l = l[:34]
+	}
+	return strings.TrimSpace(l)
 }
 
 // syntax errors reported by the shipped Groovy parser
@@ -1660,9 +1943,14 @@ type ProjCase struct {
 	Manifests []Manifest        `json:"manifests"`
 	Imports   []Import          `json:"imports"`
 	Features  []string          `json:"features"`
-	// CliForm: how the deps command is given the project directory (cwd is always the project):
-	// 0 "-p .", 1 "--path .", 2 no option (the default), 3 "-p <absolute directory>", 4 "--path=./"
+	// CliForm: how the deps command is given the project directory (cwd is the project for 0-4 and 7):
+	// 0 "-p .", 1 "--path .", 2 no option (the default), 3 "-p <absolute directory>", 4 "--path=./", 7 "-p=.";
+	// 5 "-p <name>" with the directory above the project as cwd, 6 "--path ../<name>/" with an empty directory next to the project as cwd
 	CliForm int `json:"cli_form,omitempty"`
+	// PathForm: how the in-process pipeline names the directory: 0 as it is, 1 with a trailing "/", 2 with a trailing "/."
+	PathForm int `json:"path_form,omitempty"`
+	// NotImports: texts inside Java files that name a declared group without being an import (comments, string literals)
+	NotImports []string `json:"not_imports,omitempty"`
 }
 
 type importSpec struct {
@@ -1673,6 +1961,8 @@ type importSpec struct {
 type groupUse struct {
 	Used    bool
 	Imports []importSpec
+	// added by the audit round: imports and other texts that come close to the group id without containing it as an import would
+	Near []importSpec
 }
 
 type javaFileSpec struct {
@@ -1682,9 +1972,200 @@ type javaFileSpec struct {
 	Kind      int
 	Unrelated []int
 	Decoy     int // 0 = none, k = decoy group k-1
+	// added by the audit round (zero value = the plain variant)
+	Shape    int // shape of the type declaration(s) of a class file, see javaShapes
+	Layout   int // layout of the file text, see javaLayouts
+	NameForm int // 1 a type name that is a case variant of the directory name the file walk skips (TestData...), 2 the simple name of the first file
+	Root     int // 1 src/it/java, 2 a directory named testdata
 }
 
 const maxGroupsPerProject = 16
+
+// near misses: imports that come close to a declared group id without containing it, and texts of a Java file
+// that contain it without being an import. Neither makes the group "occur in an import".
+const (
+	nearCase           = iota // the group id in another letter case
+	nearParentWildcard        // on-demand import of the package above the group id (the import is a part of the group id, not the reverse)
+	nearSibling               // a sibling package of the group id
+	nearOtherPrefix           // the rest of the group id under another first name
+	nearHyphenAsDot           // the hyphen of the group id written as a dot
+	nearLineComment           // a switched-off import in a line comment
+	nearBlockComment          // a switched-off import in a block comment
+	nearStringLiteral         // the package name in a string constant
+	nearFormCount
+)
+
+var nearFormLabels = []string{"import_in_other_letter_case", "on_demand_import_of_the_parent_package", "import_of_sibling_package",
+	"import_with_other_first_name", "import_with_dot_for_hyphen", "import_inside_line_comment", "import_inside_block_comment", "package_name_in_string_literal"}
+
+// nearMiss builds the text for one declared group id; "" when the form does not apply to it
+func nearMiss(g string, form int) (text string, wildcard bool) {
+	stem := ""
+	for _, s := range stems {
+		if strings.Contains(g, s) {
+			stem = s
+		}
+	}
+	last := strings.LastIndex(g, ".")
+	switch form % nearFormCount {
+	case nearCase:
+		if stem == "" || strings.Contains(g, "-") {
+			return "", false
+		}
+		return strings.Replace(g, stem, strings.ToUpper(stem[:1])+stem[1:], 1) + ".Client", false
+	case nearParentWildcard:
+		if last <= 0 || !strings.Contains(g[:last], ".") {
+			return "", false
+		}
+		return g[:last], true
+	case nearSibling:
+		if last <= 0 {
+			return "", false
+		}
+		return g[:last] + ".unrelated.Thing", false
+	case nearOtherPrefix:
+		first := strings.Index(g, ".")
+		if first <= 0 || strings.Contains(g, "-") {
+			return "", false
+		}
+		return "zz." + g[first+1:] + ".Client", false
+	case nearHyphenAsDot:
+		if !strings.Contains(g, "-") {
+			return "", false
+		}
+		return strings.ReplaceAll(g, "-", ".") + ".Client", false
+	default:
+		if strings.Contains(g, "-") {
+			return "", false
+		}
+		return g + ".Client", false
+	}
+}
+
+// shapes of the type declarations of a class file (index 0 = the plain class); every file keeps a class or interface as
+// a top-level type, because a file that declares only an enum or an annotation type gives no model node at all
+var javaShapes = []string{"plain", "inner_class", "static_nested_class_with_methods", "nested_enum", "anonymous_class", "generic_class_with_extends_and_implements",
+	"annotated_final_class", "top_level_enum_before_the_class", "top_level_enum_after_the_class", "annotation_type_before_the_class", "three_top_level_types",
+	"empty_class_body", "local_class_and_initialiser_blocks", "classes_nested_three_deep", "lambdas_and_method_references", "abstract_class"}
+
+// the shapes that declare further types are drawn twice as often as the others
+var javaShapeGen = rapid.SampledFrom([]int{1, 1, 2, 2, 3, 3, 4, 4, 5, 6, 7, 7, 8, 8, 9, 9, 10, 10, 11, 12, 12, 13, 13, 14, 15})
+
+// layouts of the text of a Java file (index 0 = the plain one)
+var javaLayouts = []string{"plain", "crlf", "package_and_imports_on_one_line", "blanks_tabs_and_comments_inside_import_statements",
+	"licence_header_naming_an_import", "no_line_end_after_last_line", "default_package", "stray_semicolons"}
+
+func renderJava(pkg, name, kind string, imports, remarks, consts []string, shape, layout int) string {
+	var b strings.Builder
+	if layout == 4 {
+		b.WriteString("/*\n * Licensed under the Apache License, Version 2.0.\n * import " + decoyScript + ".Header;\n */\n")
+	}
+	for _, r := range remarks {
+		b.WriteString(r + "\n")
+	}
+	imps := append([]string{}, imports...)
+	if layout == 3 {
+		for i, imp := range imps {
+			q := strings.TrimSuffix(strings.TrimPrefix(imp, "import "), ";")
+			static := ""
+			if strings.HasPrefix(q, "static ") {
+				static, q = "static\t", strings.TrimPrefix(q, "static ")
+			}
+			if k := strings.LastIndex(q, "."); k > 0 {
+				q = q[:k] + " . " + q[k+1:]
+			}
+			imps[i] = "import   " + static + []string{"", "/* used */ "}[i%2] + q + " ;"
+		}
+	}
+	if layout == 7 && len(imps) > 0 {
+		imps[len(imps)-1] += ";"
+	}
+	switch {
+	case layout == 2:
+		b.WriteString("package " + pkg + "; " + strings.Join(imps, " ") + "\n")
+	default:
+		if layout != 6 {
+			b.WriteString("package " + pkg + ";\n\n")
+		}
+		for _, imp := range imps {
+			b.WriteString(imp + "\n")
+		}
+		if len(imps) > 0 {
+			b.WriteString("\n")
+		}
+	}
+	if layout == 4 {
+		b.WriteString("/**\n * Generated sample; see {@link " + decoyScript + ".Linked}.\n */\n")
+	}
+	if layout == 7 {
+		b.WriteString(";\n")
+	}
+	member := ""
+	for i, c := range consts {
+		if kind == "interface" {
+			member += fmt.Sprintf("    String HINT%d = \"%s\";\n", i, c)
+		} else {
+			member += fmt.Sprintf("    static final String HINT%d = \"%s\";\n", i, c)
+		}
+	}
+	plainBody := member + "    private int count;\n\n    public int getCount() {\n        return count;\n    }\n"
+	switch {
+	case kind == "interface":
+		b.WriteString("public interface " + name + " {\n" + member + "    void run();\n}\n")
+	case kind == "two_types":
+		b.WriteString("interface " + name + "Port {\n" + member + "    void run();\n}\n\npublic class " + name + " implements " + name + "Port {\n    public void run() {\n    }\n}\n")
+	default:
+		switch javaShapes[shape%len(javaShapes)] {
+		case "inner_class":
+			b.WriteString("public class " + name + " {\n" + member + "    private int count;\n\n    class Inner {\n        int depth;\n    }\n\n    public int getCount() {\n        return count;\n    }\n}\n")
+		case "static_nested_class_with_methods":
+			b.WriteString("public class " + name + " {\n" + member + "    static class Nested {\n        int depth;\n\n        void dive() {\n        }\n    }\n\n    static class Second {\n    }\n\n    void surface() {\n    }\n}\n")
+		case "nested_enum":
+			b.WriteString("public class " + name + " {\n" + member + "    enum Mode { ON, OFF }\n\n    private Mode mode;\n}\n")
+		case "anonymous_class":
+			b.WriteString("public class " + name + " {\n" + member + "    private final Runnable task = new Runnable() {\n        public void run() {\n        }\n    };\n\n    void start() {\n        Runnable other = new Runnable() {\n            public void run() {\n            }\n        };\n        other.run();\n    }\n}\n")
+		case "generic_class_with_extends_and_implements":
+			b.WriteString("public class " + name + "<T extends Comparable<T>> extends Base<T> implements Comparable<" + name + "<T>>, java.io.Serializable {\n" + member + "    public int compareTo(" + name + "<T> other) {\n        return 0;\n    }\n}\n")
+		case "annotated_final_class":
+			b.WriteString("@Deprecated\n@SuppressWarnings(\"unchecked\")\npublic final class " + name + " {\n" + plainBody + "}\n")
+		case "top_level_enum_before_the_class":
+			b.WriteString("enum " + name + "Mode { ON, OFF }\n\npublic class " + name + " {\n" + plainBody + "}\n")
+		case "top_level_enum_after_the_class":
+			b.WriteString("public class " + name + " {\n" + plainBody + "}\n\nenum " + name + "Mode { ON, OFF }\n")
+		case "annotation_type_before_the_class":
+			b.WriteString("@interface " + name + "Marker {\n    String value() default \"\";\n}\n\npublic class " + name + " {\n" + plainBody + "}\n")
+		case "three_top_level_types":
+			b.WriteString("class " + name + " {\n" + plainBody + "}\n\ninterface " + name + "Port {\n    void run();\n}\n\nclass " + name + "Other {\n    int other;\n}\n")
+		case "empty_class_body":
+			if member == "" {
+				b.WriteString("class " + name + " {}\n")
+			} else {
+				b.WriteString("class " + name + " {\n" + member + "}\n")
+			}
+		case "local_class_and_initialiser_blocks":
+			b.WriteString("public class " + name + " {\n" + member + "    static {\n        System.out.println(\"static\");\n    }\n\n    {\n        System.out.println(\"instance\");\n    }\n\n    void work() {\n        class Local {\n            int z;\n        }\n        new Local();\n    }\n}\n")
+		case "classes_nested_three_deep":
+			b.WriteString("public class " + name + " {\n" + member + "    class B {\n        class C {\n            class D {\n                int z;\n            }\n        }\n    }\n\n    int after;\n}\n")
+		case "lambdas_and_method_references":
+			b.WriteString("public class " + name + " {\n" + member + "    private final java.util.function.Function<String, String> trim = s -> s.trim();\n\n    void each() {\n        Runnable r = () -> { };\n        java.util.Arrays.asList(\"a\").forEach(System.out::println);\n        r.run();\n    }\n}\n")
+		case "abstract_class":
+			b.WriteString("public abstract class " + name + " {\n" + member + "    abstract void run();\n}\n")
+		default:
+			b.WriteString("public class " + name + " {\n" + plainBody + "}\n")
+		}
+	}
+	if layout == 7 {
+		b.WriteString(";\n")
+	}
+	text := b.String()
+	switch layout {
+	case 1:
+		text = strings.ReplaceAll(text, "\n", "\r\n")
+	case 5:
+		text = strings.TrimSuffix(text, "\n")
+	}
+	return text
+}
 
 func genProject(t *rapid.T) ProjCase {
 	n := drawNamer(t)
@@ -1694,6 +2175,11 @@ func genProject(t *rapid.T) ProjCase {
 	redeclare := 0 // k > 0: the second manifest starts with the (k-1)th dependency of the first one
 	if rapid.IntRange(0, 1).Draw(t, "redeclareInSecondManifest") == 1 {
 		redeclare = rapid.IntRange(1, 4).Draw(t, "redeclareWhich")
+	}
+	// audit round: the second manifest may lie three directories deep
+	moduleDir, toolingDir := "module-b/", "tooling/"
+	if rapid.IntRange(0, 3).Draw(t, "moduleDepth") == 3 {
+		moduleDir, toolingDir = "services/billing/api/", "gradle/tooling/scripts/"
 	}
 	second := func() {
 		if redeclare == 0 || len(c.Manifests) != 1 {
@@ -1721,7 +2207,8 @@ func genProject(t *rapid.T) ProjCase {
 		c.Manifests = append(c.Manifests, Manifest{Path: path, Entries: p.Deps})
 		feats["pom"] = true
 		for _, f := range p.Features { // the free content of the other sections reaches the report checks as well
-			if strings.HasPrefix(f, "html_void_name_") || strings.HasPrefix(f, "free_name:") || strings.HasPrefix(f, "free_dependencies_element_") || f == "utf8_byte_order_mark" || f == "text_in_cdata_section" {
+			if strings.HasPrefix(f, "html_void_name_") || strings.HasPrefix(f, "free_name:") || strings.HasPrefix(f, "free_dependencies_element_") || f == "utf8_byte_order_mark" || f == "text_in_cdata_section" ||
+				strings.HasPrefix(f, "comment_line_longer_than_") || f == "no_line_end_after_root_element" || f == "xml_declaration_in_single_quotes" {
 				feats["pom:"+f] = true
 			}
 		}
@@ -1749,6 +2236,11 @@ func genProject(t *rapid.T) ProjCase {
 		if len(g.Notations) >= 2 {
 			feats["gradle_notations>=2"] = true
 		}
+		for _, f := range g.Features {
+			if strings.HasPrefix(f, "comment_line_longer_than_") || strings.HasPrefix(f, "switched_off_entry_") || f == "no_line_end_after_last_line" {
+				feats["gradle:"+f] = true
+			}
+		}
 	}
 	switch {
 	case layout <= 4:
@@ -1758,27 +2250,31 @@ func genProject(t *rapid.T) ProjCase {
 	case layout == 8:
 		addPom("pom.xml", 4)
 		second()
-		addPom("module-b/pom.xml", 4)
+		addPom(moduleDir+"pom.xml", 4)
 		feats["two_manifests"] = true
 	case layout == 9:
 		addPom("pom.xml", 4)
 		second()
-		addGradle("tooling/build.gradle", 4, false)
+		addGradle(toolingDir+"build.gradle", 4, false)
 		feats["two_manifests"] = true
 	case layout == 10:
 		addGradle("build.gradle", 4, false)
 		second()
-		addGradle("module-b/build.gradle", 4, false)
+		addGradle(moduleDir+"build.gradle", 4, false)
 		feats["two_manifests"] = true
 		feats["two_gradle_scripts"] = true
 	default:
 		// a multi-project build in which one script declares nothing: the root script (the usual case) or a module's
 		moduleIsBare := rapid.Bool().Draw(t, "bareScriptIsTheModule")
 		addGradle("build.gradle", 5, !moduleIsBare)
-		addGradle("module-b/build.gradle", 5, moduleIsBare)
+		addGradle(moduleDir+"build.gradle", 5, moduleIsBare)
 		feats["two_manifests"] = true
 		feats["two_gradle_scripts"] = true
 		feats["gradle_script_without_dependencies_block"] = true
+	}
+
+	if len(c.Manifests) == 2 && strings.Count(c.Manifests[1].Path, "/") >= 3 {
+		feats["second_manifest_three_directories_deep"] = true
 	}
 
 	uses := rapid.SliceOfN(rapid.Custom(func(t *rapid.T) groupUse {
@@ -1786,6 +2282,11 @@ func genProject(t *rapid.T) ProjCase {
 		u.Imports = rapid.SliceOfN(rapid.Custom(func(t *rapid.T) importSpec {
 			return importSpec{File: rapid.IntRange(0, 5).Draw(t, "importingFile"), Form: rapid.IntRange(0, 6).Draw(t, "importForm")}
 		}), 1, 2).Draw(t, "imports")
+		if rapid.IntRange(0, 2).Draw(t, "nearMiss") == 2 {
+			u.Near = rapid.SliceOfN(rapid.Custom(func(t *rapid.T) importSpec {
+				return importSpec{File: rapid.IntRange(0, 5).Draw(t, "nearMissFile"), Form: rapid.IntRange(0, nearFormCount-1).Draw(t, "nearMissForm")}
+			}), 1, 2).Draw(t, "nearMisses")
+		}
 		return u
 	}), maxGroupsPerProject, maxGroupsPerProject).Draw(t, "groupUse")
 	fileSpecs := rapid.SliceOfN(rapid.Custom(func(t *rapid.T) javaFileSpec {
@@ -1798,8 +2299,34 @@ func genProject(t *rapid.T) ProjCase {
 		if rapid.IntRange(0, 5).Draw(t, "decoyImport") == 5 {
 			f.Decoy = rapid.IntRange(1, len(decoys)).Draw(t, "decoy")
 		}
+		if rapid.IntRange(0, 1).Draw(t, "typeShape") == 1 {
+			f.Shape = javaShapeGen.Draw(t, "typeShapeForm")
+		}
+		if rapid.IntRange(0, 2).Draw(t, "fileLayout") == 2 {
+			f.Layout = rapid.IntRange(1, len(javaLayouts)-1).Draw(t, "fileLayoutForm")
+		}
+		if rapid.IntRange(0, 4).Draw(t, "typeName") == 4 {
+			f.NameForm = rapid.IntRange(1, 2).Draw(t, "typeNameForm")
+		}
+		if rapid.IntRange(0, 5).Draw(t, "sourceRoot") == 5 {
+			f.Root = rapid.IntRange(1, 2).Draw(t, "sourceRootForm")
+		}
 		return f
 	}), 0, 5).Draw(t, "javaFiles")
+	// one case in five has a house style: every class file in the same drawn shape, one in five every file in the same layout,
+	// so that the shape decides about every import of the project
+	if rapid.IntRange(0, 4).Draw(t, "houseShape") == 4 {
+		hs := javaShapeGen.Draw(t, "houseShapeForm")
+		for i := range fileSpecs {
+			fileSpecs[i].Shape = hs
+		}
+	}
+	if rapid.IntRange(0, 4).Draw(t, "houseLayout") == 4 {
+		hl := rapid.IntRange(1, len(javaLayouts)-1).Draw(t, "houseLayoutForm")
+		for i := range fileSpecs {
+			fileSpecs[i].Layout = hl
+		}
+	}
 
 	// distinct declared groups, in declaration order
 	var groups []string
@@ -1820,6 +2347,9 @@ func genProject(t *rapid.T) ProjCase {
 		if uses[gi].Used && !strings.Contains(g, "-") {
 			anyUsed = true
 		}
+		if len(uses[gi].Near) > 0 {
+			anyUsed = true // a near miss needs a file to stand in as well
+		}
 	}
 	if anyUsed && len(fileSpecs) == 0 {
 		fileSpecs = append(fileSpecs, javaFileSpec{})
@@ -1830,6 +2360,10 @@ func genProject(t *rapid.T) ProjCase {
 		name    string
 		kind    string
 		imports []string
+		shape   int
+		layout  int
+		remarks []string // comment lines in front of the imports
+		consts  []string // string constants of the first type
 	}
 	var files []jf
 	for i, fs := range fileSpecs {
@@ -1849,11 +2383,48 @@ func genProject(t *rapid.T) ProjCase {
 			// a source directory that does not follow the Maven layout
 			root = strings.TrimSuffix(root, "src/main/java/") + "legacy/src/"
 			feats["java_file_outside_src_main_java"] = true
+		} else if fs.Root > 0 && !fs.Test {
+			root = strings.TrimSuffix(root, "src/main/java/") + []string{"src/it/java/", "src/test/resources/testdata/"}[(fs.Root-1)%2]
+			feats[[]string{"java_file_under_src_it_java", "java_file_under_a_directory_named_testdata"}[(fs.Root-1)%2]] = true
 		}
 		if kind == "two_types" {
 			feats["java_file_with_two_top_level_types"] = true
 		}
-		files = append(files, jf{path: root + strings.ReplaceAll(pkg, ".", "/") + "/" + name + ".java", pkg: pkg, name: name, kind: kind})
+		switch {
+		case fs.NameForm == 1:
+			name = fmt.Sprintf("TestDataFactory%d", i)
+			if fs.Test {
+				name += "Test"
+			}
+			feats["java_type_named_TestData..."] = true
+		case fs.NameForm == 2 && i > 0:
+			name = files[0].name
+		}
+		path := root + strings.ReplaceAll(pkg, ".", "/") + "/" + name + ".java"
+		for _, o := range files {
+			if o.path == path { // the drawn name is taken in this directory: back to the numbered one
+				name = fmt.Sprintf("Type%d", i)
+				path = root + strings.ReplaceAll(pkg, ".", "/") + "/" + name + ".java"
+			}
+		}
+		if i > 0 && name == files[0].name {
+			if pkg == files[0].pkg {
+				feats["same_qualified_type_name_in_two_source_roots"] = true
+			} else {
+				feats["same_simple_type_name_in_two_packages"] = true
+			}
+		}
+		f := jf{path: path, pkg: pkg, name: name, kind: kind, layout: fs.Layout % len(javaLayouts)}
+		if kind == "class" {
+			f.shape = fs.Shape % len(javaShapes)
+		}
+		if f.shape > 0 {
+			feats["java_shape:"+javaShapes[f.shape]] = true
+		}
+		if f.layout > 0 {
+			feats["java_layout:"+javaLayouts[f.layout]] = true
+		}
+		files = append(files, f)
 	}
 	addImport := func(fi int, text, group string, static, wildcard bool) {
 		line := "import "
@@ -1899,6 +2470,31 @@ func genProject(t *rapid.T) ProjCase {
 			}
 		}
 	}
+	for gi, g := range groups {
+		for _, ns := range uses[gi].Near {
+			fi := ns.File % len(files)
+			text, wildcard := nearMiss(g, ns.Form)
+			form := ns.Form % nearFormCount
+			if text == "" || (strings.Contains(text, g) != (form >= nearLineComment)) {
+				continue
+			}
+			label := nearFormLabels[form]
+			switch form {
+			case nearLineComment:
+				files[fi].remarks = append(files[fi].remarks, "// import "+text+";")
+				c.NotImports = append(c.NotImports, text)
+			case nearBlockComment:
+				files[fi].remarks = append(files[fi].remarks, "/*\n * was: import "+text+";\n */")
+				c.NotImports = append(c.NotImports, text)
+			case nearStringLiteral:
+				files[fi].consts = append(files[fi].consts, text)
+				c.NotImports = append(c.NotImports, text)
+			default:
+				addImport(fi, text, "", false, wildcard)
+			}
+			feats["near_miss:"+label] = true
+		}
+	}
 	for fi, fs := range fileSpecs {
 		for _, u := range fs.Unrelated {
 			addImport(fi, unrelatedImports[u%len(unrelatedImports)], "", false, false)
@@ -1909,22 +2505,7 @@ func genProject(t *rapid.T) ProjCase {
 		}
 	}
 	for _, f := range files {
-		var b strings.Builder
-		b.WriteString("package " + f.pkg + ";\n\n")
-		for _, imp := range f.imports {
-			b.WriteString(imp + "\n")
-		}
-		if len(f.imports) > 0 {
-			b.WriteString("\n")
-		}
-		if f.kind == "interface" {
-			b.WriteString("public interface " + f.name + " {\n    void run();\n}\n")
-		} else if f.kind == "two_types" {
-			b.WriteString("interface " + f.name + "Port {\n    void run();\n}\n\npublic class " + f.name + " implements " + f.name + "Port {\n    public void run() {\n    }\n}\n")
-		} else {
-			b.WriteString("public class " + f.name + " {\n    private int count;\n\n    public int getCount() {\n        return count;\n    }\n}\n")
-		}
-		c.Files[f.path] = b.String()
+		c.Files[f.path] = renderJava(f.pkg, f.name, f.kind, f.imports, f.remarks, f.consts, f.shape, f.layout)
 	}
 	if rapid.IntRange(0, 5).Draw(t, "gitignore") == 5 {
 		// an ignore file naming single files; the ignored file sorts before every manifest and source directory
@@ -1932,8 +2513,31 @@ func genProject(t *rapid.T) ProjCase {
 		c.Files["app.iml"] = "<module type=\"JAVA_MODULE\" version=\"4\"/>\n"
 		feats["gitignore_matching_a_file"] = true
 	}
+	if rapid.IntRange(0, 3).Draw(t, "filesNamedLikeManifests") == 3 {
+		// files whose names merely contain the manifest names: a backup copy of the pom, of the build script, the
+		// pom.properties Maven writes below target/. None of them is a manifest of the project.
+		which := rapid.IntRange(1, 7).Draw(t, "filesNamedLikeManifestsWhich")
+		if which&1 != 0 {
+			c.Files["pom.xml.bak"] = "<project>\n    <dependencies>\n        <dependency>\n            <groupId>" + decoyScript + "</groupId>\n            <artifactId>backup-copy</artifactId>\n        </dependency>\n    </dependencies>\n</project>\n"
+			feats["file_named_like_a_manifest:pom.xml.bak"] = true
+		}
+		if which&2 != 0 {
+			c.Files["build.gradle.orig"] = "dependencies {\n    implementation '" + decoyScript + ":before-merge:1.0'\n}\n"
+			feats["file_named_like_a_manifest:build.gradle.orig"] = true
+		}
+		if which&4 != 0 {
+			c.Files["target/classes/META-INF/maven/"+decoySelf+"/self-app/pom.properties"] = "groupId=" + decoySelf + "\nartifactId=self-app\nversion=0.0.1-SNAPSHOT\n"
+			feats["file_named_like_a_manifest:pom.properties"] = true
+		}
+	}
 	if rapid.IntRange(0, 1).Draw(t, "cliOptionDrawn") == 1 {
 		c.CliForm = rapid.IntRange(0, 4).Draw(t, "cliForm")
+	}
+	if rapid.IntRange(0, 2).Draw(t, "cliOptionOfTheAuditRound") == 2 {
+		c.CliForm = rapid.SampledFrom([]int{5, 6, 6, 7}).Draw(t, "cliFormOfTheAuditRound")
+	}
+	if rapid.IntRange(0, 3).Draw(t, "directorySpelling") == 3 {
+		c.PathForm = rapid.IntRange(1, 2).Draw(t, "directorySpellingForm")
 	}
 	for f := range feats {
 		c.Features = append(c.Features, f)
@@ -1947,12 +2551,16 @@ func genProject(t *rapid.T) ProjCase {
 func expectedUnused(c ProjCase) (perManifest [][]Dep, used, unused int, pattern string) {
 	var groups []string
 	for _, m := range c.Manifests {
-		declared := map[string]bool{}
+		// coordinates may be declared twice in one manifest (another scope, type or configuration), but never by an entry
+		// whose extraction is left open: the walks below rely on open entries being unmistakable
+		declared := map[string]int{}
 		for _, d := range m.Entries {
-			if declared[d.Group+":"+d.Artifact] {
-				panic("c19 generator bug: " + d.Group + ":" + d.Artifact + " declared twice in " + m.Path)
+			declared[d.Group+":"+d.Artifact]++
+		}
+		for _, d := range m.Entries {
+			if d.Open && declared[d.Group+":"+d.Artifact] > 1 {
+				panic("c19 generator bug: " + d.Group + ":" + d.Artifact + " declared twice in " + m.Path + ", once by an extract-or-skip entry")
 			}
-			declared[d.Group+":"+d.Artifact] = true
 			groups = append(groups, d.Group)
 		}
 	}
@@ -2120,6 +2728,28 @@ func projVerdict(c ProjCase) pbt.Verdict {
 	if unused == 0 {
 		v.Classes = append(v.Classes, "nothing_unused")
 	}
+	if c.PathForm%3 > 0 {
+		v.Classes = append(v.Classes, fmt.Sprintf("directory_spelling=%d", c.PathForm%3))
+	}
+	for _, m := range c.Manifests {
+		twice := false
+		for i, a := range m.Entries {
+			for _, b := range m.Entries[:i] {
+				twice = twice || (a.Artifact == b.Artifact && a.Group == b.Group)
+			}
+		}
+		if twice {
+			v.Classes = append(v.Classes, "coordinates_declared_twice_in_one_manifest")
+			break
+		}
+	}
+	total := 0
+	for _, m := range c.Manifests {
+		total += len(m.Entries)
+	}
+	if total > 16 {
+		v.Classes = append(v.Classes, "declared_total="+bucketMany(total))
+	}
 	gradleOK := true
 	hasGradle := false
 	for _, f := range c.Features {
@@ -2174,7 +2804,7 @@ func checkUnused(c ProjCase) pbt.Verdict {
 		callApp := javaapp.NewJavaFullApp()
 		classNodes := callApp.AnalysisFiles(iNodes, files)
 		app := deps.NewDepApp()
-		got = app.AnalysisPath(dir, classNodes)
+		got = app.AnalysisPath(dir+[]string{"", "/", "/."}[c.PathForm%3], classNodes)
 		// the same report asked for again on the same model, this time through the instance exported for plug-ins
 		again = deps.DepApp.AnalysisPath(dir, classNodes)
 	}); p != "" {
@@ -2247,8 +2877,21 @@ func checkCLI(c ProjCase) pbt.Verdict {
 	dir := cli.Scratch("c19cli")
 	defer os.RemoveAll(dir)
 	cli.WriteTree(dir, c.Files)
-	args := [][]string{{"deps", "-p", "."}, {"deps", "--path", "."}, {"deps"}, {"deps", "-p", dir}, {"deps", "--path=./"}}[c.CliForm%5]
-	res, err := cli.Run("coca_dep", dir, nil, args...)
+	base := filepath.Base(dir)
+	args := [][]string{{"deps", "-p", "."}, {"deps", "--path", "."}, {"deps"}, {"deps", "-p", dir}, {"deps", "--path=./"},
+		{"deps", "-p", base}, {"deps", "--path", "../" + base + "/"}, {"deps", "-p=."}}[c.CliForm%8]
+	cwd := dir
+	switch c.CliForm % 8 {
+	case 5:
+		cwd = filepath.Dir(dir)
+	case 6:
+		cwd = dir + "-elsewhere"
+		if err := os.MkdirAll(cwd, 0o755); err != nil {
+			panic("c19: " + err.Error())
+		}
+		defer os.RemoveAll(cwd)
+	}
+	res, err := cli.Run("coca_dep", cwd, nil, args...)
 	if err != nil {
 		panic("c19: cannot run coca_dep: " + err.Error())
 	}
@@ -2266,7 +2909,7 @@ func checkCLI(c ProjCase) pbt.Verdict {
 		return pbt.Fail("%s\n%s", msg, renderProject(c))
 	}
 	v := projVerdict(c)
-	v.Classes = append(v.Classes, fmt.Sprintf("cli_form=%d", c.CliForm%5))
+	v.Classes = append(v.Classes, fmt.Sprintf("cli_form=%d", c.CliForm%8))
 	return v
 }
 
@@ -2279,19 +2922,22 @@ func tail(s string, n int) string {
 
 func init() {
 	pbt.SetProperty("C19")
-	pbt.Describe("rapid-generated manifests with ground truth. pom.xml: prolog variants, namespaces, 0-10 <dependency> with children in usual or shuffled order (version incl. ${property}, scope incl. an empty <scope/> element, type, optional, classifier, exclusions with own groupId/artifactId, empty <exclusions/>), artifact ids shared by two group ids, artifact ids with dots and underscores, comments between dependencies and between the children of one, commented-out dependencies and children, a child text wrapped in a CDATA section or written with white space inside its tags, a processing instruction between two dependencies, an optional UTF-8 byte order mark, and parent / properties / dependencyManagement / build-plugins(-with-dependencies) / profiles / repositories / name+description+prerequisites / organization+licenses+developers / scm+issueManagement+distributionManagement(with relocation coordinates) / modules / reporting / pluginRepositories / processing instructions before or after. The content of those other sections is drawn as well: texts (predefined entities, character references, CDATA sections incl. one holding a <dependencies> element, non-ASCII UTF-8, several lines, unescaped > and quotes, a comment inside text), 0-4 additional properties and 0-3 additional plug-ins (build/plugins, build/pluginManagement, reporting, a profile's build; configuration under the plug-in and/or an execution, <?m2e?> instruction, own <dependencies>) whose <configuration> is a free element tree of depth <= 3 (text, element, self-closing, empty and mixed content; attributes in 9 forms; white space inside tags) with element names from six classes: plain plug-in parameters, HTML void elements (link, param, base, meta, input, col, br, img ... and their plural wrappers, as in the maven-javadoc-plugin's <links><link>), other HTML elements, the vocabulary of the extraction itself (dependencies, dependency, groupId, artifactId, scope, artifactItems ...), punctuated names, case variants (Link, BR); one case in four analyses the same file twice. build.gradle: 0-8 entries in single-quoted, double-quoted, parenthesised (both quotes, with exclude / property / because+version closures) and trailing-closure string notation, project()/fileTree()/files()/gradleApi()/libs.x/testFixtures() entries (must be skipped), statements that are no entries (def, if block, constraints block; an entry nested in them: extract-or-skip), map notation / ${} interpolation / platform() / enforcedPlatform() (extract-or-skip), 16 configuration names incl. plugin- and user-defined ones, comments, entries ending in ';' or sharing a line, `dependencies{`, a one-line block, no dependencies block at all, 20 kinds of surrounding blocks incl. dependencyManagement (imports / dependencies) / dependencyLocking / subprojects; one case in three analyses a second script (one other dependency / no dependencies block / the same script) in the same process without a reset and re-reads the first result. Projects: one or two manifests (pom, gradle, pom+pom, pom+gradle, gradle+gradle, a script without dependencies block next to one with; the second manifest may re-declare a dependency of the first) plus 0-5 Java files (main and test, classes, interfaces, two top-level types in one file, a source directory outside src/main/java, optionally a .gitignore naming single files) importing a drawn subset of the declared groups by exact-package, sub-package, wildcard and static imports, plus unrelated imports. Oracles: extraction = exactly the declared (group, artifact, scope/configuration) list in order; unused report (in-process pipeline of the deps command asked twice on one model, and the binary of analysis/dep with -p/--path/default/absolute path) = exactly the sub-list whose group id occurs in no import. Non-trivial: extraction: >= 3 dependencies and (pom) a decoy dependency section / exclusions / shuffled children, (gradle) >= 2 notations; unused report: >= 3 declared dependencies, used and unused ones interleaved, for gradle >= 2 notations. Distinct = hash of the case.",
+	pbt.Describe("rapid-generated manifests with ground truth. pom.xml: prolog variants, namespaces, 0-10 <dependency> with children in usual or shuffled order (version incl. ${property}, scope incl. an empty <scope/> element, type, optional, classifier, exclusions with own groupId/artifactId, empty <exclusions/>), artifact ids shared by two group ids, artifact ids with dots and underscores, comments between dependencies and between the children of one, commented-out dependencies and children, a child text wrapped in a CDATA section or written with white space inside its tags, a processing instruction between two dependencies, an optional UTF-8 byte order mark, and parent / properties / dependencyManagement / build-plugins(-with-dependencies) / profiles / repositories / name+description+prerequisites / organization+licenses+developers / scm+issueManagement+distributionManagement(with relocation coordinates) / modules / reporting / pluginRepositories / processing instructions before or after. The content of those other sections is drawn as well: texts (predefined entities, character references, CDATA sections incl. one holding a <dependencies> element, non-ASCII UTF-8, several lines, unescaped > and quotes, a comment inside text), 0-4 additional properties and 0-3 additional plug-ins (build/plugins, build/pluginManagement, reporting, a profile's build; configuration under the plug-in and/or an execution, <?m2e?> instruction, own <dependencies>) whose <configuration> is a free element tree of depth <= 3 (text, element, self-closing, empty and mixed content; attributes in 9 forms; white space inside tags) with element names from six classes: plain plug-in parameters, HTML void elements (link, param, base, meta, input, col, br, img ... and their plural wrappers, as in the maven-javadoc-plugin's <links><link>), other HTML elements, the vocabulary of the extraction itself (dependencies, dependency, groupId, artifactId, scope, artifactItems ...), punctuated names, case variants (Link, BR); one case in four analyses the same file twice. Added by the audit round: the coordinates of an earlier dependency declared once more (other scope / type / classifier), <systemPath> next to scope system, group ids under two-segment first names (org.apache., com.github., io.github.) and with digits or an underscore at the end (acme4j, acme_2), one case in ten with 3-90 further plain dependencies (11-100 in all, past the 16/32/64 marks), one in twelve with a comment line of 5 000 or 70 000 bytes in front of or inside the dependencies block, the XML declaration in single quotes, nothing / blank lines + comment + processing instruction after </project>, <dependencies/>. build.gradle: 0-8 entries in single-quoted, double-quoted, parenthesised (both quotes, with exclude / property / because+version closures) and trailing-closure string notation, project()/fileTree()/files()/gradleApi()/libs.x/testFixtures() entries (must be skipped), statements that are no entries (def, if block, constraints block; an entry nested in them: extract-or-skip), map notation / ${} interpolation / platform() / enforcedPlatform() (extract-or-skip), 16 configuration names incl. plugin- and user-defined ones, comments, entries ending in ';' or sharing a line, `dependencies{`, a one-line block, no dependencies block at all, 20 kinds of surrounding blocks incl. dependencyManagement (imports / dependencies) / dependencyLocking / subprojects; one case in three analyses a second script (one other dependency / no dependencies block / the same script) in the same process without a reset and re-reads the first result. Added by the audit round: the coordinates of an earlier string-notation entry once more in another configuration (compileOnly + annotationProcessor), a run of blanks / a tab / a line continuation between configuration and string, blanks inside the parentheses, switched-off entries in // and /* */ and /** */ comments on lines of their own (one or several lines), a block comment behind an entry on its line (behind a parenthesised entry: feature gradle_block_comment_behind_parenthesised_entry), 21 configuration names (digits, underscore, one letter, 75 letters), no line end after the last line, blank lines at both ends, 3-66 further plain entries, a // line of 5 000 or 70 000 bytes in front of the block, and 17 more kinds of surrounding statements: import, apply from:, ext.x =, a description string and a // comment that spell out a dependencies block, repositories { maven { url 'https://...' } }, sourceSets, a method definition, a top-level if, tasks.register (printing 'dependencies { }') / tasks.named, dependenciesInfo { } and dependencyCheck { } (names that begin like 'dependencies'), java toolchain, version '1.0', println of a GString, publishing. Projects: one or two manifests (pom, gradle, pom+pom, pom+gradle, gradle+gradle, a script without dependencies block next to one with; the second manifest may re-declare a dependency of the first) plus 0-5 Java files (main and test, classes, interfaces, two top-level types in one file, a source directory outside src/main/java, optionally a .gitignore naming single files) importing a drawn subset of the declared groups by exact-package, sub-package, wildcard and static imports, plus unrelated imports. Added by the audit round: class files in 15 further shapes (inner / static nested / three-deep nested classes, nested enum, anonymous and local classes, initialiser blocks, lambdas, generic class with extends + implements, annotations, abstract, empty body, a top-level enum or annotation type before or after the class, three top-level types), 7 file layouts (CRLF, package and imports on one line, blanks / tabs / comments inside the import statements, a licence header and a Javadoc comment naming imports, no final line end, default package, stray semicolons), type names TestDataFactoryN (case variant of the directory name testData that the file walk skips), the same simple or qualified type name twice, source roots src/it/java and .../testdata/, near misses of a declared group id which are no import of it (import in another letter case, on-demand import of the parent package, sibling package, the same tail under another first name, dot for the hyphen; a switched-off import in a line or block comment, the package name in a string constant), the second manifest three directories deep, files named like manifests (pom.xml.bak, build.gradle.orig, target/.../pom.properties), the directory handed over with a trailing / or /., and the deps command run with -p=. or from another directory (-p <name> from the directory above, --path ../<name>/ from an empty directory next to the project). Oracles: extraction = exactly the declared (group, artifact, scope/configuration) list in order; unused report (in-process pipeline of the deps command asked twice on one model, and the binary of analysis/dep with -p/--path/default/absolute path) = exactly the sub-list whose group id occurs in no import. Non-trivial: extraction: >= 3 dependencies and (pom) a decoy dependency section / exclusions / shuffled children, (gradle) >= 2 notations; unused report: >= 3 declared dependencies, used and unused ones interleaved, for gradle >= 2 notations. Distinct = hash of the case.",
 		"group ids are drawn so that none is a substring of another, of a decoy group or of an unrelated import (re-checked inside the oracle)",
 		"map notation, \"g:a:${v}\", platform('g:a:v') and enforcedPlatform('g:a:v') may be extracted (correctly) or skipped; project()/fileTree()/files()/gradleApi()/libs.x/testFixtures(project()) must be skipped",
 		"a build.gradle rejected by the shipped Groovy parser (syntax error listener) is skipped and counted",
 		"with two manifests only the order inside each manifest is asserted (any interleaving of the two lists is accepted); a dependency declared in both manifests is expected once per declaration",
 		"dependencies blocks nested in buildscript / dependencyManagement are not the project's dependencies block: their entries must not be extracted",
 		"comments are placed between elements, never inside the text of groupId/artifactId/scope; XML encodings other than UTF-8 are not generated",
-		"free sections of a pom.xml stay well-formed XML 1.0 without DTD: only the five predefined entities and numeric character references, no XHTML entities (&nbsp;), no duplicate top-level sections; mixed content only inside a plug-in's <configuration>")
+		"free sections of a pom.xml stay well-formed XML 1.0 without DTD: only the five predefined entities and numeric character references, no XHTML entities (&nbsp;), no duplicate top-level sections; mixed content only inside a plug-in's <configuration>",
+		"not generated because the statement leaves the expected value open or the shipped front-end cannot read the text: Java files without a top-level class or interface (enum-only, annotation-only, package-info.java, records: no model node, so their imports never reach the analysis), Java files with a byte order mark, Java files below a directory named testData (the file walk skips them on purpose), several coordinates in one entry (conf 'a:b:1', 'c:d:2'), a second top-level dependencies block / project.dependencies { } / dependencies.add(...), an entry spread over several lines inside its parentheses and [..].each { } inside the block (rejected by the shipped Groovy parser), a byte order mark in build.gradle, triple-quoted coordinates (with two of them in one script the shipped Groovy lexer swallows the entries in between), files whose names end in pom.xml or build.gradle without being the manifest (dependency-reduced-pom.xml)",
+		"block comments between the tokens of one gradle entry (conf /* c */ 'g:a:v', conf('g:a:v' /* c */)) are not generated: the shipped Groovy lexer has no regex-allowed predicate and reads /* c */ as a slashy string, which turns the entry into another expression; block comments on lines of their own and behind a complete entry are generated",
+		"a fully qualified use of a dependency's package without import (private org.acme.Client c;) is not generated: the statement defines usage by imports only; comments and string literals naming the package are generated and do not count as imports")
 	// quick counts are per shard; settings.json runs the quick tier in two shards
 	pbt.Register("maven", 250, 3000, genPomCase, checkPom)
 	pbt.Register("gradle", 80, 600, genGradleCase, checkGradle)
 	pbt.Register("unused", 90, 900, genProject, checkUnused)
-	pbt.Register("cli", 8, 60, genProject, checkCLI)
+	pbt.Register("cli", 12, 60, genProject, checkCLI)
 }
 
 func TestProp(t *testing.T)   { pbt.Main(t) }
